@@ -268,7 +268,7 @@ def features_in_format(X, fmt):
     return {'csr': m, 'csc': m.tocsc(), 'coo': m.tocoo(), 'lil': m.tolil()}[fmt]
 
 
-def forward_cases(ctx, a_csr, X, W, b, norm, se, act, afmt='csr', xfmt='dense', via='conv', tag='forward'):
+def forward_cases(ctx, a_csr, X, W, b, norm, se, act, afmt='csr', xfmt='dense', via='conv', tag='forward', history=None):
     """Cases for one call of a layer.  `a_csr` float csr, X dense ndarray, W (d x c), b list or None."""
     rng = ctx.rng
     c = np.asarray(W).shape[1]
@@ -286,8 +286,23 @@ def forward_cases(ctx, a_csr, X, W, b, norm, se, act, afmt='csr', xfmt='dense', 
 
     seen = {}
 
+    # history of the layer object: half of the calls are made on a layer that has already been called on ANOTHER graph
+    # of the same shape (a weighted directed cycle with a chord) — a layer answers for the graph it is given
+    if history is None:
+        history = 'called-before-on-another-graph' if (rng.random() < 0.5 and a_csr.shape[0] == a_csr.shape[1] and a_csr.shape[0] >= 1) else 'fresh'
+    desc['history'] = history
+    ctx.count('forward:history:' + history)
+
     def f():
         layer = make_layer(norm, se, act, c, W, b, via)
+        if history != 'fresh' and a_csr.shape[0] >= 1:
+            k = a_csr.shape[0]
+            other = np.roll(np.eye(k), 1, axis=1) * 2.0
+            other[0, k // 2] += 3.0
+            try:
+                layer(sparse.csr_matrix(other), X_in)
+            except Exception:      # noqa: BLE001 - the call that is judged comes next
+                pass
         out = layer(A_in, X_in)
         emb = np.asarray(layer.embedding, dtype=float)
         seen['embedding_max'] = float(np.abs(emb).max()) if emb.size else 0.0
@@ -316,7 +331,7 @@ def forward_cases(ctx, a_csr, X, W, b, norm, se, act, afmt='csr', xfmt='dense', 
         # an accepted container and fitting shapes: the documented output exists, the layer must return it
         spec = 'c19.spec_forward %s d:0:0:-' % args
     nontriv = a_csr.nnz > 0 and impl.startswith('ok')
-    key = (tag, a_tok, x_tok, w_tok, b_tok, eff_norm, eff_se, eff_act, afmt, xfmt, via)
+    key = (tag, a_tok, x_tok, w_tok, b_tok, eff_norm, eff_se, eff_act, afmt, xfmt, via, history)
     return [Case(key, sig, run, impl, spec, nontriv, desc)]
 
 
@@ -1167,7 +1182,7 @@ def cases_of_desc(ctx, d):
         a = sparse.csr_matrix(np.array(d['adjacency'], dtype=float))
         return forward_cases(ctx, a, np.array(d['features'], dtype=float), np.array(d['weight'], dtype=float), d['bias'],
                              d['normalization'], d['self_embeddings'], d['activation'], d.get('adjacency_format', 'csr'),
-                             d.get('features_format', 'dense'), d.get('via', 'conv'), tag='replay')
+                             d.get('features_format', 'dense'), d.get('via', 'conv'), tag='replay', history=d.get('history'))
     if kind == 'equivariance':
         a = sparse.csr_matrix(np.array(d['adjacency'], dtype=float))
         rng_state = ctx.rng.getstate()
